@@ -120,6 +120,28 @@ def search(payload):
     hn, hfails = g.history_block("false", GENF, hm, seed=int(payload["seed"]))
     n += hn
     fails += hfails
+    # members that are == to values of another type (3.0 next to ints): far reads; bounds that are timezone-AWARE datetimes
+    import datetime as _dt10
+    from fractions import Fraction as _Fr
+    from predicate.set_predicates import in_p as _in10
+    tzs = [_dt10.timezone(_dt10.timedelta(hours=h)) for h in (-5, 0, 5, -11)]
+    for p, count in [(_in10(1, 2, 3.0), 3000), (_in10(0, -1.0), 3000), (_in10(10, 20, _Fr(21)), 3000), (_in10(True, 2), 1500), (_in10(1.0, 2.0, 3.0), 1500)] + \
+                    [(ge_p(_dt10.datetime(2026, 3, 1, 9, 0, tzinfo=z)), 300) for z in tzs] + [(gt_p(_dt10.datetime(2026, 10, 25, 2, 30, tzinfo=z)), 300) for z in tzs[:2]]:
+        for seed in range(2):
+            if timeouts >= 3:
+                break
+            random.seed(int(payload["seed"]) * 5 + seed + 1)
+            try:
+                vals, err = g.take(GENF(p), count, seconds=40.0)
+            except (ValueError, TypeError):
+                continue
+            if err == "timeout":
+                timeouts += 1
+            bad = next((i for i, v in enumerate(vals) if call(p, v) != ("ok", False)), None)
+            n += len(vals)
+            if bad is not None:
+                fails.append({"p": repr(p), "p_structure": skey(p), "position": bad, "value": repr(vals[bad])[:200], "p(value)": repr(call(p, vals[bad])), "seed": seed})
+                break
     # quantifiers nested 8 deep: slow (seconds per value), so only the first value of one stream each is read
     from predicate.standard_predicates import all_p as _all, any_p as _any
     for outer, leaf in ((_all, is_int_p), (_all, ge_p(3)), (_any, is_str_p)):
